@@ -26,6 +26,12 @@ CLAIMS = {
  "C18": dict(text="Coq theorems for all worlds, rule lists and initial scenes: the result has exactly one entity per marked entity plus the untouched entities already in the scene; a marked entity carries (the non-exported components it already had) ++ one copy of each reflectable component the replication rules select, with current values; no duplicates arise; export is idempotent; rule insertion keeps priority order; the selection equals what the server replicates. The model is tied to the code by exporting from real Bevy apps (reflected / unreflected / unregistered types, overlapping single and bundle rules) and comparing scenes, plus a RON serialize/deserialize round trip on the implementation.",
              note="Bevy reflection, type registry and scene serialization are exercised, not modelled. A rule on the Replicated marker itself would export it (observation). Hash-map entity order is compared sorted.",
              tech="Coq proof (per-entity export specification, sortedness of rule insertion) + correspondence on real apps", ref="DESIGN.md 6/C18"),
+ "C06": dict(text="Coq theorems on byte-exact models of the server's receive paths: the acknowledgement loop terminates and never panics for every byte string, unknown indices and unauthorized senders change nothing, acks touch only the sender's own bookkeeping; trigger/event/entity decoders are total, reserve at most the message length, round-trip, and a malformed message in a batch only drops itself. Tied to the code by whole-app fuzzing: every 1-byte string and the empty message on every client channel, structure-aware and random strings, from an authorized and an unauthorized client; decode verdicts compared with the Coq models, no panic, no allocation above 2 MiB, and the rest of the system behaves exactly as the Layer 1 model predicts for a run without the attacker (the other client still converges).",
+             note="User payload types are an abstract total round-tripping codec in the theorems (serde/postcard are trusted, their allocation is watched at run time). Allocator aborts are only observable as a missing observation. The attacker can acknowledge its own in-flight messages (harms only itself).",
+             tech="Coq proof (structural induction on byte lists, fuel = length proved sufficient) + whole-app fuzz correspondence", ref="DESIGN.md 6/C06"),
+ "C01": dict(text="Executable Coq model of the whole replication protocol (server collectors, acknowledgement bookkeeping, visibility, client application, buffering, entity map, sessions, explicit channels) validated step by step against the real server and client apps on random scripts with arbitrary per-message deliver/hold/drop schedules; convergence after a lossless settle phase is checked on the implementation by an independent oracle. Coq theorems: refutation of the property on the witnesses of the open known findings (D02, D17, D19, D25: the exclusions are necessary and the model contains the defects), positive computed instances, and the ingredient lemmas pinned under C02, C03, C07, C08, C09, C10, C11, C16.",
+             note="The universally quantified convergence theorem is NOT proved (stated in Properties/C01.v); the property is decided by correspondence + oracle (bounded exploration), which is why the level note says partial. Open findings D02, D16, D17, D19, D25 are outside the generated stream by construction and reported as KNOWN-FINDING with replayed witnesses.",
+             tech="Coq model + vm_compute refutations/instances; model/implementation correspondence on random schedules; convergence oracle", ref="DESIGN.md 6/C01"),
 }
 ORDER = [p["id"] for p in props]
 checks = []
